@@ -358,7 +358,12 @@ def system_instructions(ctx) -> None:
 def run(ctx) -> None:
     from . import C13 as _c13
 
-    _c13.functor_actor(ctx)  # each execution of the table works on freshly built actors: a second run of the same symbols equals the first
+    _c13.functor_actor(ctx)
+    # ... and on a freshly compiled table: the compiler and its targets memoise nothing per call (symbols carry instruction
+    # objects bound to the assets and the graph of one launch; the graph objects hash by identity and are mutable)
+    for fn in ctx.prog.functions([m for m in ctx.prog.modules if m.startswith('forml.flow._code')]):
+        memo = [d for d in core.decorator_names(fn.node) if d.split('.')[-1] in ('lru_cache', 'cache')]
+        ctx.check(not memo, 'C01.no-memo', fn, f'{fn.qual} is not memoised per call ({memo})', fn.node, key=f'memo:{fn.qual}')  # each execution of the table works on freshly built actors: a second run of the same symbols equals the first
     # nothing is computed from a loop variable after its loop ran to completion (it would be the last element's value)
     shared.r_staleloop(ctx, ctx.prog.functions([m for m in ctx.prog.modules if m.startswith(('forml.flow._code', 'forml.flow._graph'))]))
     system_instructions(ctx)
